@@ -108,9 +108,17 @@ class DirGen:
             if r.random() > p: return []
             return [{"name": n, "tag": r.choice(["x", "y", "1", None])} for n in r.sample(names, r.randint(1, min(kmax, len(names))))]
         self.uses = uses
+        def usesr(**kw):
+            """uses in which one directive may be REPEATED with another tag (a use is a use: each instance runs with its own
+            arguments, in its own place) - on fields, arguments, input fields and enum values (a type extension may not
+            repeat a directive of its type, so type-level lists stay repetition-free)"""
+            us = uses(**kw)
+            if us and r.random() < 0.25:
+                us = us + [{"name": us[0]["name"], "tag": r.choice([t for t in ["x", "y", "1", "r"] if t != us[0]["tag"]])}]
+            return us
         self.ins = [{"kind": "scalar", "name": "String", "dirs": []},
                     {"kind": "scalar", "name": "S1", "dirs": uses(p=0.8)}, {"kind": "scalar", "name": "S2", "dirs": uses()},
-                    {"kind": "enum", "name": "E1", "dirs": uses(logonly, p=0.7), "values": [{"name": v, "dirs": uses(p=0.5)} for v in ("A", "B", "C")]}]
+                    {"kind": "enum", "name": "E1", "dirs": uses(logonly, p=0.7), "values": [{"name": v, "dirs": usesr(p=0.5)} for v in ("A", "B", "C")]}]
         leaf = ["String", "S1", "S2", "E1"]
         def in_type(names):
             t = N(r.choice(names))
@@ -127,7 +135,7 @@ class DirGen:
                 ty = in_type(names)
                 d = None
                 if r.random() < 0.35 and not is_nn(ty): d = self.const_literal(ty, in2=None)
-                fs.append({"name": fn, "type": ty, "default": d, "dirs": uses(p=0.5)})
+                fs.append({"name": fn, "type": ty, "default": d, "dirs": usesr(p=0.5)})
             return fs
         self.in2 = {"kind": "input", "name": "In2", "dirs": uses(p=0.7), "fields": in_fields(leaf, r.randint(1, 3))}
         self.ins.append(self.in2)
@@ -139,17 +147,17 @@ class DirGen:
                 ty = in_type(leaf + ["In1", "In2"])
                 d = None
                 if r.random() < 0.3 and not is_nn(ty): d = self.const_literal(ty)
-                out.append({"name": an, "type": ty, "default": d, "dirs": uses(p=0.6)})
+                out.append({"name": an, "type": ty, "default": d, "dirs": usesr(p=0.6)})
             return out
         o2 = {"name": "O2", "dirs": uses(p=0.6), "fields": [
             {"name": "marks", "args": [], "type": N("String"), "dirs": [], "res": {"k": "parentKey"}},
-            {"name": "label", "args": [], "type": N(r.choice(["String", "S1"])), "dirs": uses(p=0.5), "res": {"k": "parentKey"}},
+            {"name": "label", "args": [], "type": N(r.choice(["String", "S1"])), "dirs": usesr(p=0.5), "res": {"k": "parentKey"}},
             {"name": "kind", "args": [], "type": N("E1"), "dirs": uses(logonly, p=0.4), "res": {"k": "parentKey"}}]}
         o2v = lambda: {"d": [["label", r.choice(["l1", "l2"])], ["kind", r.choice(["A", "B", "C", None])]]}
         # an interface implemented by O2 and O3: abstract-type hooks run before the runtime type's hooks
         o3 = {"name": "O3", "dirs": uses(p=0.6), "interfaces": ["I1"], "fields": [
             {"name": "marks", "args": [], "type": N("String"), "dirs": [], "res": {"k": "parentKey"}},
-            {"name": "label", "args": [], "type": N("S1"), "dirs": uses(p=0.5), "res": {"k": "parentKey"}}]}
+            {"name": "label", "args": [], "type": N("S1"), "dirs": usesr(p=0.5), "res": {"k": "parentKey"}}]}
         o2["interfaces"] = ["I1"]
         o2["fields"][1]["type"] = N("S1")
         self.abstracts = [{"name": "I1", "dirs": uses(p=0.8), "fields": [("marks", "String"), ("label", "S1")]}]
@@ -157,12 +165,12 @@ class DirGen:
         o1 = {"name": "O1", "dirs": uses(p=0.6), "fields": [
             {"name": "argsSeen", "args": [], "type": N("String"), "dirs": [], "res": {"k": "parentKey"}},
             {"name": "marks", "args": [], "type": N("String"), "dirs": [], "res": {"k": "parentKey"}},
-            {"name": "name", "args": [], "type": N("S1"), "dirs": uses(p=0.5), "res": {"k": "parentKey"}},
+            {"name": "name", "args": [], "type": N("S1"), "dirs": usesr(p=0.5), "res": {"k": "parentKey"}},
             {"name": "kinds", "args": [], "type": L(N("E1")), "dirs": uses(logonly, p=0.4), "res": {"k": "parentKey"}},
-            {"name": "child", "args": [], "type": N("O2"), "dirs": uses(p=0.5), "res": {"k": "parentKey"}},
+            {"name": "child", "args": [], "type": N("O2"), "dirs": usesr(p=0.5), "res": {"k": "parentKey"}},
             {"name": "children", "args": [], "type": L(N("O2")), "dirs": uses(p=0.3), "res": {"k": "parentKey"}},
             {"name": "iface", "args": [], "type": N("I1"), "dirs": uses(p=0.4), "res": {"k": "parentKey"}},
-            {"name": "echo", "args": args(r.randint(1, 2)), "type": N(r.choice(["String", "S2"])), "dirs": uses(p=0.5), "res": {"k": "renderArgs"}}]}
+            {"name": "echo", "args": args(r.randint(1, 2)), "type": N(r.choice(["String", "S2"])), "dirs": usesr(p=0.5), "res": {"k": "renderArgs"}}]}
         def o1v():
             return {"d": [["name", r.choice(["n1", "n2", None])], ["kinds", r.choice([["A", "B"], [], None, ["C", None]])],
                           ["child", r.choice([o2v(), None])], ["children", [o2v() for _ in range(r.randint(0, 2))]], ["iface", i1v()]]}
@@ -170,11 +178,11 @@ class DirGen:
         for k in range(r.randint(2, 4)):
             qf.append({"name": f"f{k}", "args": args(r.randint(1, 3)), "type": N(r.choice(["String", "S1", "S2"])), "dirs": uses(p=0.6), "res": {"k": "renderArgs"}})
         qf.append({"name": "obj", "args": args(r.randint(0, 2)), "type": N("O1"), "dirs": uses(p=0.6), "res": {"k": "objWithArgs", "v": o1v()}})
-        qf.append({"name": "objs", "args": [], "type": L(N("O1")), "dirs": uses(p=0.5), "res": {"k": "const", "v": [o1v() for _ in range(r.randint(1, 3))] + ([None] if r.random() < 0.3 else [])}})
+        qf.append({"name": "objs", "args": [], "type": L(N("O1")), "dirs": usesr(p=0.5), "res": {"k": "const", "v": [o1v() for _ in range(r.randint(1, 3))] + ([None] if r.random() < 0.3 else [])}})
         qf.append({"name": "e", "args": [], "type": N("E1"), "dirs": uses(logonly, p=0.5), "res": {"k": "const", "v": r.choice(["A", "B", "C", None])}})
         qf.append({"name": "es", "args": [], "type": L(N("E1")), "dirs": uses(logonly, p=0.5), "res": {"k": "const", "v": [r.choice(["A", "B", "C"]) for _ in range(r.randint(0, 3))]}})
-        qf.append({"name": "s", "args": [], "type": N("S1"), "dirs": uses(p=0.5), "res": {"k": "const", "v": r.choice(["plain", None])}})
-        qf.append({"name": "ifaces", "args": [], "type": L(N("I1")), "dirs": uses(p=0.5), "res": {"k": "const", "v": [i1v() for _ in range(r.randint(1, 3))]}})
+        qf.append({"name": "s", "args": [], "type": N("S1"), "dirs": usesr(p=0.5), "res": {"k": "const", "v": r.choice(["plain", None])}})
+        qf.append({"name": "ifaces", "args": [], "type": L(N("I1")), "dirs": usesr(p=0.5), "res": {"k": "const", "v": [i1v() for _ in range(r.randint(1, 3))]}})
         self.objs = [{"name": "Query", "dirs": [], "fields": qf}, o1, o2, o3]
 
     def tdef(self, n):
